@@ -1019,6 +1019,14 @@ tunnel_dns(int tun_fd, int dns_fd)
 			send_ping_soon = 500;
 			break;
 		}
+		if (new_down_fragment != 0 && inpkt.len == 0) {
+			/* The next fragment of the seqno we last saw, but we
+			   hold nothing it could continue: seqnos have wrapped
+			   and this is another packet whose start we missed.
+			   Let server re-send and drop. */
+			send_ping_soon = 500;
+			break;
+		}
 		inpkt.fragment = new_down_fragment;
 
 		datalen = MIN(read - 2, sizeof(inpkt.data) - inpkt.len);
